@@ -1360,18 +1360,11 @@ impl Machine {
                 }
                 Instruction::PushStatePos(v) => self.get_current_state().push_pos(v),
                 Instruction::PopStatePos(v) => self.get_current_state().pop_pos(v),
-                Instruction::Delay(dst, src, time) => {
+                Instruction::Delay(dst, src, time, delay_idx) => {
                     let i = self.get_stack(src as i64);
                     let t = self.get_stack(time as i64);
-                    let delaysize_i =
-                        unsafe { self.delaysizes_pos_stack.last().unwrap_unchecked() };
-
-                    let size_in_samples = unsafe {
-                        *self
-                            .get_fnproto(func_i)
-                            .delay_sizes
-                            .get_unchecked(*delaysize_i)
-                    };
+                    // every delay has its own entry in the function's delay-size table
+                    let size_in_samples = self.get_fnproto(func_i).delay_sizes[delay_idx as usize];
                     let mut ringbuf = self.get_current_state().get_as_ringbuffer(size_in_samples);
 
                     let res = ringbuf.process(i, t);
